@@ -182,15 +182,19 @@ impl Recorder {
 }
 
 thread_local! {
+    static CUR_TASK: std::cell::Cell<usize> = const { std::cell::Cell::new(usize::MAX) };
     static REC: RefCell<Recorder> = RefCell::new(Recorder::new());
     static DESCRIBER: RefCell<Option<Describer>> = const { RefCell::new(None) };
 }
 
+/// The task chosen by the scheduler at the last scheduling point is the running task. The simulator's
+/// scheduler reports it here, so that recording never calls into shuttle (safe in panic hooks too).
+pub fn set_current_task(t: usize) {
+    CUR_TASK.with(|c| c.set(t));
+}
+
 pub fn current_task() -> usize {
-    match shuttle::current::get_current_task() {
-        Some(t) => t.into(),
-        None => usize::MAX,
-    }
+    CUR_TASK.with(|c| c.get())
 }
 
 pub fn with<R>(f: impl FnOnce(&mut Recorder) -> R) -> R {
